@@ -194,27 +194,56 @@ def run(ctx):
 
 
 def generated_threshold(ctx):
-    """the generated C++ filter decides with the threshold it was configured with (the constant in the header, bit for bit)"""
+    """the generated C++ filter decides with the threshold it was configured with (the constant in the header, bit for bit),
+    whether the configuration is given as a Config object or as a plain dict; a discarded reading leaves estimate and covariance
+    bit-identical while its innovation is recorded; with filtering disabled nothing is discarded"""
     jobs, metas = [], []
-    for i, k in enumerate([2.3456789, 3.0000004, 1.0 / 3.0] if ctx.quick else [2.3456789, 3.0000004, 1.0 / 3.0, 1.23456749e-3, 4e-7, 7.0]):
-        d = gen.tame_definition(ctx.rng, n_state=2, n_control=0, n_sensors=1, max_readings=1)
+    ks = [(2.3456789, False), (3.0000004, True), (1.0 / 3.0, False), (None, True), (None, False)]
+    if not ctx.quick:
+        ks += [(1.23456749e-3, True), (4e-7, False), (7.0, True), (5.0, True)]
+    for i, (k, as_dict) in enumerate(ks):
+        d = gen.tame_definition(ctx.rng, n_state=2, n_control=0, n_sensors=1, max_readings=ctx.rng.choice([1, 2]))
         d._kind = "ekf"
         process, sensor = eh.make_noises(ctx.rng, d)
         try:
-            g = cppgen.generate(d, process, sensor, {}, ctx.scratch, f"t{i}", filtering=k, rng=ctx.rng)
+            g = cppgen.generate(d, process, sensor, {}, ctx.scratch, f"t{i}", filtering=k, rng=ctx.rng, config_as_dict=as_dict)
         except Exception as e:
             ctx.fail(f"cpp-generate-raises:{fk.exc_kind(e)}", repr(e)[:300], {"k": k}); continue
-        jobs.append((g, d, None)); metas.append(k)
-    for k, (exe, err) in zip(metas, cppgen.build_many(jobs)):
-        case = {"stream": "generated-threshold", "k": k}
+        jobs.append((g, d, None)); metas.append((k, as_dict, d))
+    for (k, as_dict, d), (exe, err) in zip(metas, cppgen.build_many(jobs)):
+        case = {"stream": "generated-threshold", "k": k, "config_given_as": "dict" if as_dict else "Config"}
         ctx.case(case, True); ctx.count("stream=generated-threshold")
         if exe is None:
             ctx.fail("generated-cpp-does-not-compile", err[-300:], case); continue
         lay = cppgen.run_exe(exe, ["layout"])[0]
         got = rh.bitsf(lay["config.innovation_filtering"])
-        if got != float(k):
-            ctx.fail("cpp-threshold-constant", f"generated C++ filter edits with k = {got!r}, configured k = {k!r}: the Python and C++ filters "
-                     "take different decisions for NIS between the two limits", case)
+        if got != (0.0 if k is None else float(k)):
+            ctx.fail("cpp-threshold-constant", f"generated C++ filter edits with k = {got!r}, configured k = {k!r} (0 = disabled): the Python and "
+                     "C++ filters take different decisions for NIS between the two limits", case)
+            continue
+        # one far outlier and one reading close to the prediction through the generated filter
+        key = sorted(d.sensors)[0]
+        Lr = sorted(d.sensors[key])
+        pt = gen.gen_point(ctx.rng, d)
+        P = eh.spd(ctx.rng, len(d.state))
+        sub = eh.subs_map(d, pt)
+        hx = [float(v) for v in eh.oracle_vals(d.sensors[key], Lr, sub)]
+        for label, off in (("outlier", 1000.0), ("inlier", 2.0 ** -10)):
+            z = {r: h + off * (1 + idx) for idx, (r, h) in enumerate(zip(Lr, hx))}
+            out = cppgen.run_exe(exe, [cppgen.point_line(f"update:{key}", d, pt, [[float(v) for v in row] for row in P], z)])[0]
+            c2 = dict(case, reading=label, z=z, point=eh.point_json(pt), **{"def": d.describe()})
+            ctx.case(c2, True); ctx.count(f"generated-filter:{label}")
+            unchanged = out["unchanged"] == "1"
+            should_discard = (k is not None) and label == "outlier"
+            if unchanged != should_discard:
+                ctx.fail("cpp-filter-decision:" + ("disabled" if k is None else label),
+                         f"generated C++ filter (k={k!r}) {'left the estimate untouched for' if unchanged else 'used'} the {label} reading", c2)
+                continue
+            inn = [rh.bitsf(out[f"inn.{i2}"]) for i2 in range(len(Lr))] if "inn.0" in out else None
+            want = [z[r] - rh.bitsf(out[f"h.{r}"]) for r in Lr]
+            if inn is None or not all(abs(a - b) <= 1e-9 * (1 + abs(b)) for a, b in zip(inn, want)):
+                ctx.fail("cpp-innovation-not-recorded:" + ("discarded" if should_discard else "used"),
+                         f"after a {'discarded' if should_discard else 'used'} reading the generated C++ filter reports innovation {inn}, expected z - h(x) = {want}", c2)
 
 
 def replay(ctx, data):
